@@ -155,11 +155,11 @@ def hook(ex, func, argv, frame):
         for x in octs:
             val = add(mul(val, 256), x)
         return True, Opaque('ip', fam=int(mm.group(1)), val=val, octs=octs)
-    mm = re.match(r'^<\[u8; (\d+)\] as std::ops::Index(Mut)?<std::ops::RangeFull>>::index(_mut)?$', f)
+    mm = re.match(r'^<\[\w+; (\d+)\] as std::ops::Index(Mut)?<std::ops::RangeFull>>::index(_mut)?$', f)
     if mm:
         t = deref(a[0])
         return True, ArrView(t, 0, len(t.items))
-    mm = re.match(r'^<\[u8; (\d+)\] as std::ops::Index(Mut)?<std::ops::Range(To|From)?<usize>>>::index(_mut)?$', f)
+    mm = re.match(r'^<\[\w+; (\d+)\] as std::ops::Index(Mut)?<std::ops::Range(To|From)?<usize>>>::index(_mut)?$', f)
     if mm and isinstance(deref(a[0]), Tuple):
         t = deref(a[0])
         r = a[1]
